@@ -287,7 +287,7 @@ func c12CoqCase(h eng.History, o eng.Obs) string {
 			logs = append(logs, fmt.Sprintf("(mkLogObs d%d %s %s %s)", i, eventCtor12[ev[0]], eventCtor12[ev[1]], hx.CoqList(c12Levs(o.Steps[i]))))
 		}
 	}
-	return fmt.Sprintf("(%s\n mkC12 (%s)\n  %s\n  %s)", strings.Join(lets, "\n "), eng.CoqCaseWith(h, o, func(i int) string { return terms[i] }), hx.CoqList(parse), hx.CoqList(logs))
+	return fmt.Sprintf("(%s\n mkC12 (%s)\n  %s\n  %s)", strings.Join(lets, "\n "), eng.CoqCaseExt(h, o, func(i int) string { return terms[i] }, c12StepTerm, "mkCase12"), hx.CoqList(parse), hx.CoqList(logs))
 }
 
 var eventCtor12 = map[string]string{"pre-install": "PreInstall", "post-install": "PostInstall", "pre-upgrade": "PreUpgrade", "post-upgrade": "PostUpgrade"}
@@ -383,3 +383,32 @@ func c12Families(h eng.History) string {
 }
 
 var _ = sort.Strings
+
+// c12StepTerm: the steps of a C12 case are Engine/HookTest.v h12 terms: the engine's step, or helm test
+func c12StepTerm(_ int, s eng.Step, def string) string {
+	if s.Op != nil && s.Op.Kind == "test" {
+		return fmt.Sprintf("HTest %s %s %s", hx.CoqStrList(s.Op.TestInclude), hx.CoqStrList(s.Op.TestExclude), eng.CoqFaults(s.Op))
+	}
+	return "HBase (" + def + ")"
+}
+
+// declaredHooks: the hooks a stored revision must have - Helm's stored list (its order) read through the chart's
+// declaration, followed by the hook documents the chart declares (with known event names) that the stored revision
+// no longer has.  What an operation is expected to run is computed from this, not from what storage holds.
+func declaredHooks(stored, declared []eng.Hook) (all []eng.Hook, lost []eng.Hook) {
+	all = withDeclared(stored, declared)
+	m := matchDeclared(stored, declared)
+	got := map[int]bool{}
+	for _, d := range m {
+		if d >= 0 {
+			got[d] = true
+		}
+	}
+	for k, d := range declared {
+		if s := c12Sem(d); !got[k] && s.EventsKnown {
+			x := eng.Hook{Res: declaredDoc(d), Events: s.Events, Weight: s.Weight, Policies: s.Policies}
+			all, lost = append(all, x), append(lost, x)
+		}
+	}
+	return
+}
